@@ -192,7 +192,8 @@ func RuleJ1(c *Ctx) {
 }
 
 // literalSetOf: the expression is X.String() (or a field whose type has such a
-// String) where String is a switch returning string literals only.
+// String) where every return of String hands out a string constant or an element of a
+// package-level table of string constants that nothing in the repository writes.
 func (c *Ctx) literalSetOf(pk *pkgT, e ast.Expr) ([]string, bool) {
 	info := pk.TypesInfo
 	call, ok := ast.Unparen(e).(*ast.CallExpr)
@@ -204,40 +205,156 @@ func (c *Ctx) literalSetOf(pk *pkgT, e ast.Expr) ([]string, bool) {
 		return nil, false
 	}
 	fd := c.P.Decl(f)
-	if fd == nil || len(fd.Body.List) != 1 {
-		return nil, false
-	}
-	sw, ok := fd.Body.List[0].(*ast.SwitchStmt)
-	if !ok {
+	if fd == nil {
 		return nil, false
 	}
 	fpk := c.P.PkgOfDecl(fd)
+	finfo := fpk.TypesInfo
 	var set []string
-	for _, cl := range sw.Body.List {
-		cc := cl.(*ast.CaseClause)
-		for _, st := range cc.Body {
-			switch s := st.(type) {
-			case *ast.ReturnStmt:
-				if len(s.Results) != 1 {
-					return nil, false
+	good := true
+	inspectNoLit(fd.Body, func(x ast.Node) bool {
+		ret, isRet := x.(*ast.ReturnStmt)
+		if !isRet {
+			return true
+		}
+		if len(ret.Results) != 1 {
+			good = false
+			return true
+		}
+		r := ast.Unparen(ret.Results[0])
+		if tv, ok := finfo.Types[r]; ok && tv.Value != nil {
+			v, _ := strconv.Unquote(tv.Value.ExactString())
+			set = append(set, v)
+			return true
+		}
+		if ix, ok := r.(*ast.IndexExpr); ok {
+			if id, ok := ast.Unparen(ix.X).(*ast.Ident); ok {
+				if tab, ok := finfo.ObjectOf(id).(*types.Var); ok {
+					if vals, ok := c.constStringTable(tab); ok {
+						set = append(set, vals...)
+						return true
+					}
 				}
-				tv, ok := fpk.TypesInfo.Types[s.Results[0]]
-				if !ok || tv.Value == nil {
-					return nil, false
-				}
-				v, _ := strconv.Unquote(tv.Value.ExactString())
-				set = append(set, v)
-			case *ast.ExprStmt:
-				if !hasPanic(fpk.TypesInfo, s) {
-					return nil, false
-				}
-			default:
-				return nil, false
 			}
 		}
+		good = false
+		return true
+	})
+	if !good {
+		return nil, false
 	}
 	sort.Strings(set)
 	return set, len(set) > 0
+}
+
+// constStringTable: tab is a package-level variable initialised with a composite literal
+// (array, slice or map) whose element values are all string constants, and no function of
+// the repository assigns it, assigns one of its elements or takes its address. Returns the
+// element values (the zero value "" included for an array with gaps).
+func (c *Ctx) constStringTable(tab *types.Var) ([]string, bool) {
+	if tab.Pkg() == nil || tab.Parent() != tab.Pkg().Scope() {
+		return nil, false
+	}
+	var lit *ast.CompositeLit
+	var tpk *pkgT
+	for _, pk := range c.P.Repo {
+		if pk.Types != tab.Pkg() {
+			continue
+		}
+		tpk = pk
+		for _, f := range pk.Syntax {
+			for _, d := range f.Decls {
+				gd, ok := d.(*ast.GenDecl)
+				if !ok {
+					continue
+				}
+				for _, sp := range gd.Specs {
+					vs, ok := sp.(*ast.ValueSpec)
+					if !ok {
+						continue
+					}
+					for i, nm := range vs.Names {
+						if pk.TypesInfo.Defs[nm] == types.Object(tab) && i < len(vs.Values) {
+							lit, _ = ast.Unparen(vs.Values[i]).(*ast.CompositeLit)
+						}
+					}
+				}
+			}
+		}
+	}
+	if lit == nil {
+		return nil, false
+	}
+	var vals []string
+	for _, el := range lit.Elts {
+		v := el
+		if kv, ok := el.(*ast.KeyValueExpr); ok {
+			v = kv.Value
+		}
+		tv, ok := tpk.TypesInfo.Types[v]
+		if !ok || tv.Value == nil || tv.Value.Kind() != constant.String {
+			return nil, false
+		}
+		vals = append(vals, constant.StringVal(tv.Value))
+	}
+	if arr, ok := tab.Type().Underlying().(*types.Array); ok && int(arr.Len()) > len(lit.Elts) {
+		vals = append(vals, "")
+	}
+	written := false
+	c.P.Funcs(func(pk *pkgT, fd *ast.FuncDecl) {
+		info := pk.TypesInfo
+		isTab := func(e ast.Expr) bool {
+			for {
+				switch x := ast.Unparen(e).(type) {
+				case *ast.IndexExpr:
+					e = x.X
+					continue
+				case *ast.SliceExpr:
+					e = x.X
+					continue
+				case *ast.Ident:
+					return info.ObjectOf(x) == types.Object(tab)
+				case *ast.SelectorExpr:
+					return info.ObjectOf(x.Sel) == types.Object(tab)
+				}
+				return false
+			}
+		}
+		ast.Inspect(fd.Body, func(x ast.Node) bool {
+			switch y := x.(type) {
+			case *ast.AssignStmt:
+				for _, l := range y.Lhs {
+					if isTab(l) {
+						written = true
+					}
+				}
+			case *ast.IncDecStmt:
+				if isTab(y.X) {
+					written = true
+				}
+			case *ast.UnaryExpr:
+				if y.Op == token.AND && isTab(y.X) {
+					written = true
+				}
+			case *ast.CallExpr:
+				// handed to a function as a slice or map: the callee could write through it
+				for _, a := range y.Args {
+					if isTab(a) {
+						if _, isIdx := ast.Unparen(a).(*ast.IndexExpr); !isIdx {
+							if _, isArr := tab.Type().Underlying().(*types.Array); !isArr {
+								written = true
+							}
+						}
+					}
+				}
+			}
+			return true
+		})
+	})
+	if written {
+		return nil, false
+	}
+	return vals, true
 }
 
 // ---------------------------------------------------------------- ID1 key == id
@@ -266,6 +383,35 @@ func RuleID1(c *Ctx) {
 		key := fmt.Sprintf("%s#%d", c.P.DeclName(cs.Decl), n)
 		cf := c.CFG(cs.Pk, cs.Body)
 		k, v := cs.Call.Args[0], cs.Call.Args[1]
+		// key and value handed in by the caller: the obligation is the callers'
+		if ki, vi := paramExprIndex(info, cs.Decl, cf.Resolve(k)), paramExprIndex(info, cs.Decl, cf.Resolve(v)); cs.Lit == nil && ki >= 0 && vi >= 0 {
+			if self, _ := info.Defs[cs.Decl.Name].(*types.Func); self != nil {
+				sites := c.callSitesOf(self)
+				bad := ""
+				for _, up := range sites {
+					if up.Pk != pk || ki >= len(up.Call.Args) || vi >= len(up.Call.Args) {
+						bad = c.P.Pos(up.Call.Pos())
+						break
+					}
+					ucf := c.CFG(up.Pk, up.Body)
+					uk, uv := up.Call.Args[ki], up.Call.Args[vi]
+					uctor, ok := ast.Unparen(ucf.Resolve(uv)).(*ast.CallExpr)
+					if !ok || len(uctor.Args) == 0 || !ucf.SameResolved(uctor.Args[0], uk) || !id1CtorCopies(c, info, uctor) {
+						bad = c.P.Pos(up.Call.Pos())
+						break
+					}
+				}
+				switch {
+				case len(sites) == 0:
+					sc.Holds(key, c.P.Pos(cs.Call.Pos()), "helper without callers")
+				case bad == "":
+					sc.Holds(key, c.P.Pos(cs.Call.Pos()), fmt.Sprintf("key and interaction are parameters; at all %d call sites the interaction is built from the id passed as the key", len(sites)))
+				default:
+					sc.Violation(key, c.P.Pos(cs.Call.Pos()), "key and interaction are parameters, and the call at "+bad+" passes an interaction that was not built from the id it passes as the key: its id/path/method fields can disagree with its key")
+				}
+				return
+			}
+		}
 		ctor, ok := ast.Unparen(cf.Resolve(v)).(*ast.CallExpr)
 		if !ok || len(ctor.Args) == 0 || !cfgx.SameExpr(info, ctor.Args[0], k) {
 			sc.Violation(key, c.P.Pos(cs.Call.Pos()), "the interaction stored under "+types.ExprString(k)+" was not built from that id: its id/path/method fields can disagree with its key")
@@ -318,6 +464,56 @@ func RuleID1(c *Ctx) {
 			sc.Violation(key, c.P.Pos(cs.Call.Pos()), "constructor "+cfn.Name()+" does not take "+strings.Join(missing, ",")+" from its id: the entry disagrees with its key")
 		}
 	})
+}
+
+// paramExprIndex: the index of the parameter of fd that e names, or -1.
+func paramExprIndex(info *types.Info, fd *ast.FuncDecl, e ast.Expr) int {
+	id, ok := ast.Unparen(e).(*ast.Ident)
+	if !ok || fd == nil || fd.Type.Params == nil {
+		return -1
+	}
+	obj := info.ObjectOf(id)
+	i := 0
+	for _, fl := range fd.Type.Params.List {
+		for _, nm := range fl.Names {
+			if info.ObjectOf(nm) == obj {
+				return i
+			}
+			i++
+		}
+	}
+	return -1
+}
+
+// id1CtorCopies: the constructor called by ctor takes Id and PathVal from its first parameter.
+func id1CtorCopies(c *Ctx, info *types.Info, ctor *ast.CallExpr) bool {
+	cfd := c.P.Decl(Callee(info, ctor))
+	if cfd == nil || cfd.Type.Params == nil || len(cfd.Type.Params.List) == 0 || len(cfd.Type.Params.List[0].Names) == 0 {
+		return false
+	}
+	idParam := info.ObjectOf(cfd.Type.Params.List[0].Names[0])
+	fromID := map[string]bool{}
+	ast.Inspect(cfd.Body, func(x ast.Node) bool {
+		kv, ok := x.(*ast.KeyValueExpr)
+		if !ok {
+			return true
+		}
+		kid, ok := kv.Key.(*ast.Ident)
+		if !ok {
+			return true
+		}
+		val := ast.Unparen(kv.Value)
+		if call, ok := val.(*ast.CallExpr); ok {
+			if r := Recv(call); r != nil {
+				val = r
+			}
+		}
+		if cfgx.RootObj(info, val) == idParam {
+			fromID[kid.Name] = true
+		}
+		return true
+	})
+	return fromID["Id"] && fromID["PathVal"]
 }
 
 // ---------------------------------------------------------------- M1 serialisation covers the model
